@@ -1,0 +1,71 @@
+//go:build verif
+
+// Contracts for the verification machinery in /verif (comment-only; compiled only with -tags verif).
+
+package client
+
+// ---- C11: a request built by the client library is the canonical form of a model that carries exactly the caller's
+// suffix, reveal value, commitments, patches, key and window; its delta hash is the hash of its delta under the
+// caller's algorithm; a key is never re-committed ----
+//
+//@ iface Signer.Headers
+//@   ensures result == hdrsOf(this)
+//@ spec hdrsOf(s Signer) jws.Headers
+//
+//@ func validateSigner
+//@   loop 1
+//@     invariant true
+//@   ensures result == nil ==> signer != nil
+//
+//@ func validateUpdateKey
+//@   ensures result == nil ==> key != nil
+//@ func validateRecoveryKey
+//@   ensures result == nil ==> key != nil
+//
+//@ func validateCommitment
+//@   requires jwk != nil
+//@   ensures result == nil ==> commitOK(jwk, multihashCode) && commitOf(jwk, multihashCode) != nextCommitment
+//
+//@ func validateUpdateRequest
+//@   requires info != nil
+//@   ensures result == nil ==> info.DidSuffix != "" && info.RevealValue != "" && len(info.Patches) > 0 && info.UpdateKey != nil && info.Signer != nil
+//
+//@ func NewUpdateRequest
+//@   requires info != nil
+//@   results r, err
+//@   ensures err == nil ==> info.DidSuffix != "" && info.RevealValue != "" && len(info.Patches) > 0 && commitOf(info.UpdateKey, info.MultihashCode) != info.UpdateCommitment
+//@   ensures err == nil ==> (exists s *model.UpdateRequest, sd *model.UpdateSignedDataModel :: s != nil && sd != nil && r == jcs(boxed(s)) && s.Operation == operation.TypeUpdate && s.DidSuffix == info.DidSuffix && s.RevealValue == info.RevealValue && s.Delta != nil && s.Delta.UpdateCommitment == info.UpdateCommitment && s.Delta.Patches == info.Patches && s.SignedData == signedBy(jcs(boxed(sd)), boxed(info.Signer)) && sd.DeltaHash == modelMH(boxed(s.Delta), info.MultihashCode) && sd.UpdateKey == info.UpdateKey && sd.AnchorFrom == info.AnchorFrom && sd.AnchorUntil == info.AnchorUntil)
+//
+//@ func getPatches
+//@   results ps, err
+//@   ensures err == nil ==> ps == cond(opaque != "", docPatches(opaque), patches)
+//
+//@ func validateRecoverRequest
+//@   requires info != nil
+//@   ensures result == nil ==> info.DidSuffix != "" && info.RevealValue != "" && info.RecoveryKey != nil && info.Signer != nil && (info.OpaqueDocument != "" || len(info.Patches) > 0) && !(info.OpaqueDocument != "" && len(info.Patches) > 0)
+//
+//@ func NewRecoverRequest
+//@   requires info != nil
+//@   results r, err
+//@   ensures err == nil ==> info.DidSuffix != "" && info.RevealValue != "" && commitOf(info.RecoveryKey, info.MultihashCode) != info.RecoveryCommitment
+//@   ensures err == nil ==> (exists s *model.RecoverRequest, sd model.RecoverSignedDataModel :: s != nil && r == jcs(boxed(s)) && s.Operation == operation.TypeRecover && s.DidSuffix == info.DidSuffix && s.RevealValue == info.RevealValue && s.Delta != nil && s.Delta.UpdateCommitment == info.UpdateCommitment && s.Delta.Patches == cond(info.OpaqueDocument != "", docPatches(info.OpaqueDocument), info.Patches) && s.SignedData == signedBy(jcs(boxed(sd)), boxed(info.Signer)) && sd.DeltaHash == modelMH(boxed(s.Delta), info.MultihashCode) && sd.RecoveryKey == info.RecoveryKey && sd.RecoveryCommitment == info.RecoveryCommitment && sd.AnchorOrigin == info.AnchorOrigin && sd.AnchorFrom == info.AnchorFrom && sd.AnchorUntil == info.AnchorUntil)
+//
+//@ func validateDeactivateRequest
+//@   requires info != nil
+//@   ensures result == nil ==> info.DidSuffix != "" && info.RevealValue != "" && info.Signer != nil
+//
+//@ func NewDeactivateRequest
+//@   requires info != nil
+//@   results r, err
+//@   ensures err == nil ==> info.DidSuffix != "" && info.RevealValue != ""
+//@   ensures err == nil ==> (exists s *model.DeactivateRequest, sd model.DeactivateSignedDataModel :: s != nil && r == jcs(boxed(s)) && s.Operation == operation.TypeDeactivate && s.DidSuffix == info.DidSuffix && s.RevealValue == info.RevealValue && s.SignedData == signedBy(jcs(boxed(sd)), boxed(info.Signer)) && sd.DidSuffix == info.DidSuffix && sd.RecoveryKey == info.RecoveryKey && sd.AnchorFrom == info.AnchorFrom && sd.AnchorUntil == info.AnchorUntil)
+//
+//@ func validateCreateRequest
+//@   requires info != nil
+//@   ensures result == nil ==> (info.OpaqueDocument != "" || len(info.Patches) > 0) && !(info.OpaqueDocument != "" && len(info.Patches) > 0) && info.RecoveryCommitment != info.UpdateCommitment
+//
+//@ func NewCreateRequest
+//@   requires info != nil
+//@   results r, err
+//@   ensures err == nil ==> info.RecoveryCommitment != info.UpdateCommitment
+//@   ensures err == nil ==> (exists s *model.CreateRequest :: s != nil && r == jcs(boxed(s)) && s.Operation == operation.TypeCreate && s.Delta != nil && s.SuffixData != nil && s.Delta.UpdateCommitment == info.UpdateCommitment && s.Delta.Patches == cond(info.OpaqueDocument != "", docPatches(info.OpaqueDocument), info.Patches) && s.SuffixData.DeltaHash == modelMH(boxed(s.Delta), info.MultihashCode) && s.SuffixData.RecoveryCommitment == info.RecoveryCommitment && s.SuffixData.AnchorOrigin == info.AnchorOrigin && s.SuffixData.Type == info.Type)
